@@ -19,8 +19,8 @@ import (
 
 func init() {
 	fw.Register(&fw.Check{
-		ID: "C18",
-		Rule: "cases: internal documents built from validated keys (6 types x purpose subsets, consistent type/material pairs incl. Ed25519 2018/2020 with JWK -> base58 / multibase), services (all endpoint shapes, extra members) and also-known-as; all 2^5 combinations of {@base, method context, key-context override, include published, include unpublished}; resolution states incl. deactivated, unpublished, zero times; operation lists of 0..12 entries with (time, number) drawn from {0..3}^2 (ties and disagreeing orders dominate) and duplicated canonical references. Oracle: a small reference transformer written from the statement builds the complete expected document and metadata; operation lists are checked as sorted by (time, number) and as a permutation of the de-duplicated input. distinct = (option combination, key types, list-length and duplicate pattern).",
+		ID:          "C18",
+		Rule:        "cases: internal documents built from validated keys (6 types x purpose subsets, consistent type/material pairs incl. Ed25519 2018/2020 with JWK -> base58 / multibase), services (all endpoint shapes, extra members) and also-known-as; all 2^5 combinations of {@base, method context, key-context override, include published, include unpublished}; resolution states incl. deactivated, unpublished, zero times; operation lists of 0..12 entries with (time, number) drawn from {0..3}^2 (ties and disagreeing orders dominate) and duplicated canonical references. Oracle: a small reference transformer written from the statement builds the complete expected document and metadata; operation lists are checked as sorted by (time, number) and as a permutation of the de-duplicated input. distinct = (option combination, key types, list-length and duplicate pattern).",
 		Assumptions: []string{"reference transformer in the harness", "own base58 encoder"},
 		Require:     []string{"transforms", "keys", "services", "published-lists", "unpublished-lists", "ed25519-conversions", "generic-transformer", "retained-results-rechecked"},
 		Run:         runC18,
@@ -194,6 +194,9 @@ func c18State(r *fw.Rand) (*protocol.ResolutionModel, map[string]interface{}) {
 	rm.Deactivated = r.Chance(1, 5)
 	rm.CreatedTime = uint64(r.Intn(3)) * uint64(r.Range(1, 1700000000))
 	rm.UpdatedTime = uint64(r.Intn(3)) * uint64(r.Range(1, 1700000000))
+	if r.Chance(1, 4) {
+		rm.UpdatedTime = rm.CreatedTime // e.g. create and update anchored in the same block
+	}
 	if r.Chance(2, 3) {
 		rm.VersionID = "uEiVersion" + fmt.Sprint(r.Intn(100))
 	}
